@@ -124,6 +124,17 @@ def gen_jobs(rng, tier, scale):
                 c_on.update(on)
                 c_on["cfg.enc_mode"] = c_off["cfg.enc_mode"]
                 jobs.append(("tool", tool, c_off, c_on))
+                # the same switch in another context: a tool must stay off whatever else is configured
+                ctxs = [{"cfg.tile_columns": 1, "cfg.tile_rows": 1, "width": 256, "height": 128},
+                        {"bitdepth": 10}, {"cfg.hierarchical_levels": 2, "cfg.enable_overlays": 1},
+                        {"cfg.rate_control_mode": 1, "cfg.target_bit_rate": 400000}, {"cfg.logical_processors": 1}]
+                for ctx in (ctxs[:2] if quick and preset != presets[0] else (ctxs[:1] if quick else ctxs)):
+                    if tool in ("intrabc", "screen_content_tools") and "bitdepth" in ctx:
+                        continue
+                    co, cn = dict(c_off), dict(c_on)
+                    co.update(ctx)
+                    cn.update(ctx)
+                    jobs.append(("tool", tool, co, cn))
     sizes = [(64, 64), (128, 96), (256, 144), (352, 288), (640, 360)] + ([(1280, 720), (1920, 1080)] if not quick else [])
     combos = [(c, r) for c in range(0, 5) for r in range(0, 7)]
     for (w, h) in sizes:
